@@ -155,6 +155,8 @@ class PairChecker:
         if err is not None:
             self.refused += 1
             rec.case(("pair", canon(p_ts), canon(c_ts), via_mandatory), nontrivial=False)
+            if C is not None:
+                self._recheck(C, p_ts, c_ts, via_mandatory)
             if sample_declared and C is not None and "valid subtype" in str(err):
                 self._declared(P, p_ts, c_ts)
             return
@@ -200,6 +202,24 @@ class PairChecker:
                               f"f={sl.short(repr(v), 60)} (json {sl.short(j, 60)}) and P.{how} rejects it: {type(e).__name__}: {sl.short(str(e).replace(chr(10), ' | '), 140)}",
                               case=case, fns=FNS_CHECK + FNS_TYPES)  # fmt: skip
                     return
+
+    def _recheck(self, C, p_ts, c_ts, via_mandatory):
+        """A class the check refused is refused again: when the same class is checked a second time (registered again), and when it is reached
+        as a nested schema of two different plugins."""
+        case = {"kind": "recheck", "P": p_ts, "C": c_ts, "via_mandatory": via_mandatory}
+        fns = ["schema/core.py:check_types", "schema/pg.py:PGSchema.check_plugin"]
+        err2 = plugin_check(C)
+        self.rec.check(err2 is not None, "c13:refused-then-accepted:same-class-checked-again", f"child ({sl.tstr(c_ts)} over {sl.tstr(p_ts)}) was refused by the plugin check and is accepted when checked again", case, fns)
+        self.rechecks = getattr(self, "rechecks", 0) + 1
+        if self.rechecks % 20 == 1:
+            for i in (1, 2):
+                try:
+                    nm = f"User{i}x{next(_counter)}"
+                    U = type(sl.MetadataSchema)(nm, (sl.MetadataSchema,), {"__module__": sl.__name__, "__qualname__": nm, "__annotations__": {"n": sl.Optional[C]}})
+                    eu = plugin_check(U)
+                except Exception as e:  # noqa
+                    eu = e
+                self.rec.check(eu is not None, "c13:refused-then-accepted:nested-in-another-plugin", f"plugin #{i} nesting the refused child ({sl.tstr(c_ts)} over {sl.tstr(p_ts)}) passes the plugin check", case, fns)
 
     def _declared(self, P, p_ts, c_ts):
         try:
@@ -601,6 +621,19 @@ def replay(case: dict):
         pc._values(P, C, case["P"], case["C"], case.get("via_mandatory", False), only=[case["v"]])
         if pc.values_checked == 0:
             return False, "child no longer accepts / serialises the value"
+    elif kind == "recheck":
+        P, perr = parent_class(case["P"])
+        if P is None or perr is not None:
+            return False, "parent refused"
+        try:
+            C = child_class(P, case["C"], via_mandatory=case.get("via_mandatory", False))
+            err = plugin_check(C)
+        except Exception as e:  # noqa
+            C, err = None, e
+        if C is None or err is None:
+            return False, "the child is not refused by the plugin check on this tree"
+        pc = PairChecker(rec)
+        pc._recheck(C, case["P"], case["C"], case.get("via_mandatory", False))
     elif kind == "declared":
         P, perr = parent_class(case["P"])
         if P is None or perr is not None:
